@@ -1,7 +1,7 @@
 #!/bin/bash
 # C10 runtime residue: the parallel entry points under the Go race detector.
 #   race_c10.sh WORKDIR SEED TIER        (cwd = the Go module root, /verif/go or the VERIF_REPO copy of it)
-# Builds the harness (main.go util*.go c10*.go only) with -race and runs stream c10r with GOMAXPROCS 1, 2 and 16.
+# Builds the harness (main.go c10*.go only) with -race and runs stream c10r with GOMAXPROCS 1, 2 and 16.
 # Any "DATA RACE" in the output, or a non-zero exit of the harness, makes this script print the report and exit 1.
 set -u
 WORK=${1:?work dir}; SEED=${2:-0}; TIER=${3:-quick}
@@ -9,7 +9,7 @@ export GOFLAGS=-mod=mod GOPROXY=off GOSUMDB=off GOTOOLCHAIN=local CGO_ENABLED=1
 SRC=hrace_c10_$$
 mkdir -p "$SRC" "$WORK"
 trap 'rm -rf "$SRC"' EXIT
-cp harness/main.go harness/util*.go harness/c10*.go "$SRC"/ 2>/dev/null
+cp harness/main.go harness/c10*.go "$SRC"/ 2>/dev/null   # the C10 streams use nothing from util*.go
 if ! go build -race -tags verif -o "$WORK/harness_race" "./$SRC" > "$WORK/race_build.log" 2>&1; then
   echo "race build failed"; tail -40 "$WORK/race_build.log"; exit 2
 fi
